@@ -94,6 +94,10 @@ def canonical_section(r, n, wide=()):
                 word = r.choice([c, "a" + c, c + "b", "so" + c + "lo"])
             elif wide and r.random() < 0.5:
                 word = r.choice(KEYWORDS)            # keyword-like words in every capitalisation
+            elif wide and r.random() < 0.5:
+                from chartgen import ESCAPE_LIKE
+                fr = r.choice(ESCAPE_LIKE)
+                word = r.choice([fr, "a" + fr + "b", fr + fr, "so" + fr])
             out.append(f"{tstr} = E " + word + pad)
         tick += r.choice([1, 2, 50, 192, 1000])
     return out
@@ -190,6 +194,13 @@ def run(ctx):
                 recs.append(observe_section(f"p{j}-direct", sec, sx, ex))
         ctx.evaluations += 1
         ctx.distinct(["sec", sec, sx, ex])
+    # lengths (and ticks) that are congruent modulo the constants an implementation may hash or truncate by: phrases on ONE tick
+    # whose lengths differ by multiples of 2^61 - 1 (CPython's integer hash modulus), 2^32, 2^64; notes likewise
+    for name, big in (("m61", 2**61 - 1), ("2m61", 2 * (2**61 - 1)), ("p32", 2**32), ("p64", 2**64)):
+        sec = ["5 = N 0 7", f"768 = S 2 96", f"768 = S 2 {96 + big}", f"768 = S 2 {96 + 2 * big}", "768 = N 1 0", f"900 = S 2 {big}", "900 = S 2 0",
+               f"1000 = N 2 {5 + big}", "1100 = N 2 5", f"1200 = E w{big}", "1200 = E w0"]
+        recs.append(observe_section(f"cong-{name}", sec, [], []))
+        ctx.evaluations += 1
     ctx.sample({"origin": "canonical line", "line": lines[0], "record": {k: v for k, v in recs[-1].items() if k in ("acc", "n", "s", "e")}})
     by_id = {x["id"]: x for x in recs}
     rej = ctx.validate(recs)
